@@ -1165,6 +1165,9 @@ def check_overrides(tier, seed):
         ('two_crit_cells', spec('COUNTIFS', None, [(B, fromcell('op_cell', '<>', e(2))), (A, fromcell('op_cell', '>=', e(4)))])),
         ('two_crit_cells', spec('SUMIFS', G, [(A, fromcell('op_cell', '>', e(1))), (A, fromcell('op_cell', '<', e(10)))])),
         ('crit_cell_date', spec('SUMIFS', F, [(D, fromcell('op_cell', '>', e(3)))])),
+        ('crit_cell_date', spec('COUNTIFS', None, [(D, fromcell('op_cell', '<>', e(3)))])),
+        ('crit_cell_date', spec('SUMIF', F, [(D, fromcell('plain_cell', '=', e(3)))])),
+        ('crit_cell_date', spec('AVERAGEIFS', G, [(D, fromcell('op_cell', '<=', e(3)))])),
         ('crit_expr', spec('SUMIFS', F, [(A, fromcell('op_expr', '>', e(1), 'expr', plus=2))])),
         ('crit_formula_cell', spec('SUMIFS', F, [(A, fromcell('op_cell', '>', e(12)))])),        # E12 is the formula =E1+2
         ('crit_formula_cell', spec('COUNTIFS', None, [(A, fromcell('plain_cell', '=', e(12)))])),
@@ -1192,16 +1195,22 @@ def check_overrides(tier, seed):
             [('targetcell', (0, G, r), v) for r in (2, 9) for v in (7, 100)] +
             [('beyond', (0, A, r), v) for r in (11, 13, 14) for v in (9, 5, 1)] + [('beyond', (0, F, r), v) for r in (11, 13, 14) for v in (2048, 4096)] +
             [('beyond', (0, G, 12), 77), ('beyond', (0, 24, 3), 7), ('beyond', (0, 24, 5), 2), ('beyond', (0, 25, 3), 50),
-             ('beyond', (0, 25, 1), 60), ('beyond', (0, 24, 1), 10)])
+             ('beyond', (0, 25, 1), 60), ('beyond', (0, 24, 1), 10)] +
+            [('rangecell', (0, D, r), v) for r in (1, 3, 9) for v in (DT(2021, 6, 25), DT(2030, 1, 1), DT(2021, 6, 25, 0, 0, 1))])
+    # values of type datetime.date (a date without a time of day) are equal to that day's midnight
+    date_only = ([('rangecell', (0, D, r), v) for r in (2, 5, 8) for v in (datetime.date(2021, 6, 25), datetime.date(2021, 6, 26),
+                                                                          datetime.date(1999, 1, 1))] +
+                 [('critcell', (0, 5, 3), v) for v in (datetime.date(2021, 6, 25), datetime.date(2021, 6, 24), datetime.date(2051, 1, 1))])
     batches = []
     nexec = 16 if tier == 'quick' else 160
     for k in range(nexec):
         steps, classes = [], []
+        with_date_only = k % 4 == 3
         for _ in range(rng.randint(3, 7)):
-            chosen = rng.sample(pool, rng.randint(1, 3))
+            chosen = rng.sample(pool, rng.randint(1, 3)) + (rng.sample(date_only, 1) if with_date_only else [])
             if rng.random() < 0.25:                              # the same cell twice in one call / in consecutive calls: last one wins
                 c = rng.choice(chosen)
-                chosen.append(rng.choice([p for p in pool if p[1] == c[1]]))
+                chosen.append(rng.choice([p for p in pool + (date_only if with_date_only else []) if p[1] == c[1]]))
             last = {}
             for cls, pos, v in chosen:
                 last[pos] = (cls, v)
@@ -1209,7 +1218,8 @@ def check_overrides(tier, seed):
             classes.append(sorted({cls for cls, _ in last.values()}))
         items = []
         for tag, sp in specs:
-            items.append({'spec': sp, 'key': f"C12.override.{sp['func']}.{tag}", 'ctx': 'one Executor, values read before and after set_cells'})
+            key = 'C12.override.date_only_values' if with_date_only and tag == 'crit_cell_date' else f"C12.override.{tag}.{sp['func']}"
+            items.append({'spec': sp, 'key': key, 'ctx': 'one Executor, values read before and after set_cells'})
         mode = 'whole' if k % 4 else 'entry'
         if mode == 'entry':
             items = rng.sample(items, 6)
@@ -1220,7 +1230,8 @@ def check_overrides(tier, seed):
         f'them), each read once and then after each of 3..7 set_cells calls of 1..4 cells drawn from {len(pool)} overrides: the '
         f'criterion cell of ">"&E1 / "<>"&E10 / E2 / a date cell / a formula cell =E1+2 and its precedent, cells inside the criteria '
         f'and target ranges, blank cells inside the ranges, cells below the used rows (ranges reaching row 14), cells of unused '
-        f'columns X / Y, a planted cell overridden with an empty cell, the same cell overridden twice',
+        f'columns X / Y, a planted cell overridden with an empty cell, the same cell overridden twice; every fourth Executor also '
+        f'receives datetime.date values (no time of day) in the date column / the date criterion cell',
         'one evaluation = one formula value after one step, against the select-then-fold on the planted cells with all overrides '
         'so far applied (latest value of a cell wins)', False, batches, t0)
 
@@ -1285,7 +1296,7 @@ def check_contexts(tier, seed):
         combos = [fp[i] for i in (0, 4, 6, 8, 10, 13, 20)]
         items = items_for(combos, 0, col0=col0, row0=row0, tag=f'block_at_{col_letters(col0)}{row0}')
         if mode == 'entry' and tier == 'quick':
-            items = items[:8]
+            items = items[:8] if col0 < 1000 and row0 < 100000 else [items[0], items[5], items[10], items[19]]
         left = col0 + 14 > 16384
         for k, it in enumerate(items):
             it['at'] = [0, (col0 - 2 - k // 10) if left else (col0 + 11 + k // 10), row0 + k % 10]
